@@ -172,6 +172,11 @@ def request(iface, app, root, path, host=None, log=None, info=None):
         scope = SV.to_scope(req)
         if root == "" and len(path) % 2 == 0:
             del scope["root_path"]  # optional in ASGI (default ""); a server may leave it out
+        # raw_path is optional too: present as bytes (what to_scope gives), present as None, or missing - by the length of the path
+        if len(path) % 3 == 1:
+            scope["raw_path"] = None
+        elif len(path) % 3 == 2:
+            scope.pop("raw_path", None)
         before = copy.deepcopy(scope)
         res = SV.run_asgi(app, scope, SV.to_messages(req))
         untouched = scope == before
